@@ -21,6 +21,7 @@ SURF = "mouette/mesh/datatypes/surface.py"
 LIN = "mouette/mesh/datatypes/linear.py"
 DATA = "mouette/mesh/mesh_data.py"
 GEO = "mouette/geometry/geometry.py"
+BORD = "mouette/processing/border.py"
 
 
 def names_of_tuple(node, rel):
@@ -349,6 +350,121 @@ def orientation(fn, rel):
     return args, op, appended(test_if.body), appended(test_if.orelse)
 
 
+def enum_dict_entries(fn, rel, iter_src, wanted):
+    """`for i, x in enumerate(<iter_src>): ... D[k] = v ...` with k, v in {i, x}: {dict name: Gallina pair in (i, x)}"""
+    out = {}
+    for st in ast.walk(fn):
+        if isinstance(st, ast.For) and isinstance(st.iter, ast.Call) and T.dotted(st.iter.func) == "enumerate" \
+                and len(st.iter.args) == 1 and ast.unparse(st.iter.args[0]) == iter_src \
+                and isinstance(st.target, ast.Tuple) and len(st.target.elts) == 2 \
+                and all(isinstance(e, ast.Name) for e in st.target.elts):
+            iv, xv = st.target.elts[0].id, st.target.elts[1].id
+            nm = {iv: "i", xv: "x"}
+            for s2 in st.body:
+                if isinstance(s2, ast.Assign) and len(s2.targets) == 1 and isinstance(s2.targets[0], ast.Subscript):
+                    d = ast.unparse(s2.targets[0].value)
+                    if d in wanted:
+                        k, v = s2.targets[0].slice, s2.value
+                        if not (isinstance(k, ast.Name) and isinstance(v, ast.Name) and k.id in nm and v.id in nm):
+                            T.fail(rel, s2, "dict entry is not D[i|x] = i|x")
+                        if d in out:
+                            T.fail(rel, s2, "dict %s assigned twice" % d)
+                        out[d] = "(%s, %s)" % (nm[k.id], nm[v.id])
+    missing = [d for d in wanted if d not in out]
+    if missing:
+        T.fail(rel, fn, "enumerate(%s) loop does not fill %s" % (iter_src, missing))
+    return out
+
+
+def standalone_extractor(fn, rel):
+    """extract_boundary_of_volume: vertex dicts, face tuple order, orientation guard / test / flipped tuple"""
+    ent = enum_dict_entries(fn, rel, "vertex_set", ["map_m2b", "map_b2m"])
+    loop = None
+    for st in ast.walk(fn):
+        if isinstance(st, ast.For) and ast.unparse(st.iter) == "enumerate(bound.faces)" and ast.unparse(st.target) == "(i, iF)":
+            loop = st
+    if loop is None:
+        T.fail(rel, fn, "`for i, iF in enumerate(bound.faces)` not found")
+    b = loop.body
+    if not (len(b) == 4 and isinstance(b[0], ast.Assign) and ast.unparse(b[0].targets[0]) == "face"
+            and ast.unparse(b[1]) == "cells_iF = mesh.connectivity.face_to_cells(iF)"
+            and isinstance(b[2], ast.If) and not b[2].orelse and ast.unparse(b[3]) == "bound.faces[i] = face"):
+        T.fail(rel, loop, "face loop of extract_boundary_of_volume not recognised")
+    # face = tuple((map_m2b[v] for v in <order>(mesh.faces[iF])))
+    v0 = b[0].value
+    if not (isinstance(v0, ast.Call) and T.dotted(v0.func) == "tuple" and len(v0.args) == 1 and isinstance(v0.args[0], ast.GeneratorExp)):
+        T.fail(rel, b[0], "face is not tuple(generator)")
+    g = v0.args[0]
+    if not (len(g.generators) == 1 and not g.generators[0].ifs and isinstance(g.generators[0].target, ast.Name)
+            and ast.unparse(g.elt) == "map_m2b[%s]" % g.generators[0].target.id):
+        T.fail(rel, b[0], "face generator is not map_m2b[v] for v in ...")
+    it = ast.unparse(g.generators[0].iter)
+    if it == "mesh.faces[iF]":
+        order = "l"
+    elif it == "reversed(mesh.faces[iF])":
+        order = "rev l"
+    else:
+        T.fail(rel, b[0], "face vertices are not taken from mesh.faces[iF] in (reversed) order")
+    # guard
+    gd = b[2].test
+    if not (isinstance(gd, ast.BoolOp) and isinstance(gd.op, ast.And) and len(gd.values) == 2):
+        T.fail(rel, gd, "orientation guard is not `A and B`")
+    env = {}
+    parts = []
+    for t in gd.values:
+        if not (isinstance(t, ast.Compare) and isinstance(t.left, ast.Call) and T.dotted(t.left.func) == "len"
+                and ast.unparse(t.left.args[0]) in ("face", "cells_iF")):
+            T.fail(rel, t, "guard conjunct is not len(face|cells_iF) <cmp> k")
+        nm = {"face": "nface", "cells_iF": "ncells"}[ast.unparse(t.left.args[0])]
+        fake = ast.Compare(left=ast.Name(id=nm), ops=t.ops, comparators=t.comparators)
+        parts.append(nat_cmp(fake, rel, {"nface": "nface", "ncells": "ncells"}))
+    guard = "(%s) && (%s)" % tuple(parts)
+    ib = b[2].body
+    want = ["iC = cells_iF[0]", "pA, pB, pC = (mesh.vertices[_x] for _x in mesh.faces[iF])",
+            "D = [x for x in mesh.cells[iC] if x not in mesh.faces[iF]][0]", "pD = mesh.vertices[D]"]
+    if len(ib) != 5 or [ast.unparse(x) for x in ib[:4]] != want or not isinstance(ib[4], ast.If) or ib[4].orelse:
+        T.fail(rel, b[2], "orientation block of extract_boundary_of_volume not recognised")
+    tst = ib[4].test
+    neg = False
+    if isinstance(tst, ast.UnaryOp) and isinstance(tst.op, ast.Not):
+        neg, tst = True, tst.operand
+    if not (isinstance(tst, ast.Compare) and len(tst.ops) == 1 and isinstance(tst.left, ast.Call)
+            and T.dotted(tst.left.func) == "det_3x3" and len(tst.left.args) == 3
+            and isinstance(tst.comparators[0], ast.Constant) and tst.comparators[0].value == 0
+            and type(tst.ops[0]) in (ast.Gt, ast.GtE, ast.Lt, ast.LtE)):
+        T.fail(rel, tst, "flip test is not [not] det_3x3(..) <cmp> 0")
+    pm = {"pA": "pA", "pB": "pB", "pC": "pC", "pD": "pD"}
+    args = []
+    for a in tst.left.args:
+        if isinstance(a, ast.BinOp) and isinstance(a.op, ast.Sub) and isinstance(a.left, ast.Name) \
+                and isinstance(a.right, ast.Name) and a.left.id in pm and a.right.id in pm:
+            args.append("(vsub3 %s %s)" % (a.left.id, a.right.id))
+        else:
+            T.fail(rel, a, "argument of det_3x3 is not a difference of two of the four positions")
+    zt = {ast.Gt: "(0 <? %s)%%Z", ast.GtE: "(0 <=? %s)%%Z", ast.Lt: "(%s <? 0)%%Z", ast.LtE: "(%s <=? 0)%%Z"}[type(tst.ops[0])]
+    test = zt % ("det_3x3 " + " ".join(args))
+    if neg:
+        test = "negb %s" % test
+    fl = ib[4].body
+    if not (len(fl) == 1 and isinstance(fl[0], ast.Assign) and ast.unparse(fl[0].targets[0]) == "face"
+            and isinstance(fl[0].value, ast.Tuple) and len(fl[0].value.elts) == 3):
+        T.fail(rel, ib[4], "flip branch is not face = (face[a], face[b], face[c])")
+    idx = []
+    for e in fl[0].value.elts:
+        if not (isinstance(e, ast.Subscript) and ast.unparse(e.value) == "face" and isinstance(e.slice, ast.Constant)
+                and e.slice.value in (0, 1, 2)):
+            T.fail(rel, e, "flip branch element is not face[0|1|2]")
+        idx.append("x%d" % e.slice.value)
+    # the loop over the border faces fills bound.faces with the face ids, in order
+    first = [ast.unparse(x) for x in ast.walk(fn) if isinstance(x, ast.For) and ast.unparse(x.iter) == "mesh.boundary_faces"]
+    if not first or "bound.faces.append(iF)" not in first[0]:
+        T.fail(rel, fn, "border faces are not collected with `for iF in mesh.boundary_faces: bound.faces.append(iF)`")
+    ret = [ast.unparse(x.value) for x in ast.walk(fn) if isinstance(x, ast.Return)]
+    if ret != ["(SurfaceMesh(bound), map_m2b, map_b2m)"]:
+        T.fail(rel, fn, "extract_boundary_of_volume does not return (SurfaceMesh(bound), map_m2b, map_b2m)")
+    return ent, order, guard, test, idx
+
+
 def gen():
     out_parts = []
     body = []
@@ -498,6 +614,37 @@ def gen():
                 % (zt % ("det_3x3 " + dargs % ("", "", ""))))
     body.append("Definition orient_then {A} (bA bB bC : A) : list A := [%s].\n" % "; ".join(th))
     body.append("Definition orient_else {A} (bA bB bC : A) : list A := [%s].\n" % "; ".join(el))
+    # ---- index dicts of _BoundaryConnectivity
+    ef = enum_dict_entries(fx, VOL, "self.complete_mesh.boundary_faces", ["self.m2b_face", "self.b2m_face"])
+    ev = enum_dict_entries(fx, VOL, "vertex_set", ["self.m2b_vertex", "self.b2m_vertex"])
+    binit = T.find_def(bc, "__init__", VOL)
+    out_parts.append(("volume._BoundaryConnectivity.__init__", T.sha(vsrc, binit)))
+    eloop = [st for st in ast.walk(binit) if isinstance(st, ast.For) and ast.unparse(st.iter) == "self.complete_mesh.boundary_edges"]
+    if len(eloop) != 1 or [ast.unparse(x) for x in eloop[0].body] != [
+            "u, v = self.complete_mesh.edges[e]", "bu, bv = (self.m2b_vertex[u], self.m2b_vertex[v])",
+            "be = self.edge_id(bu, bv)", "self.m2b_edge[e] = be", "self.b2m_edge[be] = e"]:
+        T.fail(VOL, binit, "edge indirection loop of _BoundaryConnectivity.__init__ not recognised")
+    body.append("(* volume.py _BoundaryConnectivity: dict entries written for the i-th enumerated element x *)\n")
+    body.append("Definition bc_m2b_face_entry (i x : nat) : nat * nat := %s.\n" % ef["self.m2b_face"])
+    body.append("Definition bc_b2m_face_entry (i x : nat) : nat * nat := %s.\n" % ef["self.b2m_face"])
+    body.append("Definition bc_m2b_vertex_entry (i x : nat) : nat * nat := %s.\n" % ev["self.m2b_vertex"])
+    body.append("Definition bc_b2m_vertex_entry (i x : nat) : nat * nat := %s.\n" % ev["self.b2m_vertex"])
+    # ---- border.py extract_boundary_of_volume
+    bsrc, btree = T.load(BORD)
+    fxb = T.find_def(btree, "extract_boundary_of_volume", BORD)
+    out_parts.append(("border.extract_boundary_of_volume", T.sha(bsrc, fxb)))
+    imp2 = [n for n in ast.walk(btree) if isinstance(n, ast.ImportFrom) and any(a.name == "det_3x3" and a.asname is None for a in n.names)
+            and (n.module or "").endswith("geometry.geometry")]
+    if not imp2:
+        T.fail(BORD, btree, "det_3x3 is not imported from geometry.geometry")
+    xent, xorder, xguard, xtest, xidx = standalone_extractor(fxb, BORD)
+    body.append("(* border.py extract_boundary_of_volume *)\n")
+    body.append("Definition ex_m2b_entry (i x : nat) : nat * nat := %s.\n" % xent["map_m2b"])
+    body.append("Definition ex_b2m_entry (i x : nat) : nat * nat := %s.\n" % xent["map_b2m"])
+    body.append("Definition ex_face_order {A} (l : list A) : list A := %s.\n" % xorder)
+    body.append("Definition ex_orient_guard (nface ncells : nat) : bool := %s.\n" % xguard)
+    body.append("Definition ex_flip_test (pA pB pC pD : Z * Z * Z) : bool :=\n  %s.\n" % xtest)
+    body.append("Definition ex_flip {A} (x0 x1 x2 : A) : list A := [%s].\n" % "; ".join(xidx))
 
     # ---- lazy caches
     ssrc, stree = T.load(SURF)
